@@ -112,9 +112,12 @@ theorem find_proj_H (H : PortId → Bool) (p : PortId) (hp : H p = true) (ps : L
       simp [hx, this, ih]
 
 theorem step_proj (H : PortId → Bool) (P : Params) (E : Env) (hs : Safe E H) (hcl : Closed E H) (hfr : Frame E H)
-    (s : State) (a : Action) :
+    (s : State) (a : Action) (h1 : ∀ p, a ≠ .create p) (h2 : ∀ p, a ≠ .remove p) (h3 : a ≠ .forceEval) :
     proj H (step P E s a) = if keep H a then step P E (proj H s) a else proj H s := by
   cases a with
+  | create p => exact absurd rfl (h1 p)
+  | remove p => exact absurd rfl (h2 p)
+  | forceEval => exact absurd rfl h3
   | pass k now => simp only [keep, if_true, step]; exact pass_proj H P E hs hcl k now s
   | setSrc p v =>
     by_cases hp : H p = true
@@ -168,6 +171,31 @@ theorem step_proj (H : PortId → Bool) (P : Params) (E : Env) (hs : Safe E H) (
           rw [writeObs_port E q o ho, hqid, hp']; simp
         rw [this]; rfl
 
+theorem step_proj' (H : PortId → Bool) (P : Params) (E : Env) (hs : Safe E H) (hcl : Closed E H) (hfr : Frame E H)
+    (s : State) (a : Action) :
+    proj H (step P E s a) = if keep H a then step P E (proj H s) a else proj H s := by
+  cases a with
+  | create p =>
+    by_cases hp : H p = true
+    · simp only [keep, hp, if_true, step, proj]
+      rw [modPort_proj_H H p (setEnabled true) (setEnabled true) (fun _ => rfl) (fun _ _ => rfl)]
+    · have hp' : H p = false := by simpa using hp
+      simp only [keep, hp', Bool.false_eq_true, if_false, step, proj]
+      rw [modPort_proj_F H p hp' (setEnabled true) (fun _ => rfl)]
+  | remove p =>
+    by_cases hp : H p = true
+    · simp only [keep, hp, if_true, step, proj]
+      rw [modPort_proj_H H p (setEnabled false) (setEnabled false) (fun _ => rfl) (fun _ _ => rfl)]
+    · have hp' : H p = false := by simpa using hp
+      simp only [keep, hp', Bool.false_eq_true, if_false, step, proj]
+      rw [modPort_proj_F H p hp' (setEnabled false) (fun _ => rfl)]
+  | forceEval => rfl
+  | pass k now => exact step_proj H P E hs hcl hfr s (.pass k now) (by intro p; simp) (by intro p; simp) (by simp)
+  | setSrc p v => exact step_proj H P E hs hcl hfr s (.setSrc p v) (by intro q; simp) (by intro q; simp) (by simp)
+  | apiWrite p v k => exact step_proj H P E hs hcl hfr s (.apiWrite p v k) (by intro q; simp) (by intro q; simp) (by simp)
+  | eval p => exact step_proj H P E hs hcl hfr s (.eval p) (by intro q; simp) (by intro q; simp) (by simp)
+  | write p => exact step_proj H P E hs hcl hfr s (.write p) (by intro q; simp) (by intro q; simp) (by simp)
+
 theorem run_proj (H : PortId → Bool) (P : Params) (E : Env) (hs : Safe E H) (hcl : Closed E H) (hfr : Frame E H) :
     ∀ (σ : List Action) (s : State), proj H (run P E s σ) = run P E (proj H s) (σ.filter (keep H)) := by
   intro σ
@@ -175,7 +203,7 @@ theorem run_proj (H : PortId → Bool) (P : Params) (E : Env) (hs : Safe E H) (h
   | nil => intro s; rfl
   | cons a σ ih =>
     intro s
-    have h := step_proj H P E hs hcl hfr s a
+    have h := step_proj' H P E hs hcl hfr s a
     simp only [run, List.foldl_cons] at ih ⊢
     rw [ih, h]
     by_cases hk : keep H a = true
